@@ -43,6 +43,10 @@ type Field struct {
 	Toks  []Tok  `json:"toks,omitempty"` // nil: raw (edge) scalar
 	Raw   string `json:"raw"`
 	Obs   string `json:"obs"`
+	// map keys (where = pkey:<prefix> | eckey:<prefix>): every key of the map that starts with the prefix,
+	// the one equal to Raw first, then the others sorted; Obs = these joined by " | "
+	Key     bool     `json:"key,omitempty"`
+	ObsKeys []string `json:"obs_keys,omitempty"`
 }
 
 type Seg struct {
@@ -223,6 +227,8 @@ func (c *Case) coq() string {
 			switch {
 			case sg.F < 0:
 				segs = append(segs, "SLit "+coqStr(sg.Lit))
+			case c.Fields[sg.F].Key:
+				segs = append(segs, "SKey "+coqToks(c.Fields[sg.F].Toks)+" "+coqStrs(c.Fields[sg.F].ObsKeys))
 			case c.Fields[sg.F].Toks != nil:
 				segs = append(segs, "STok "+coqToks(c.Fields[sg.F].Toks)+" "+coqStr(c.Fields[sg.F].Obs))
 			default:
@@ -374,6 +380,13 @@ func (lb *loadBuilder) field(where string, toks []Tok, raw string) {
 	lb.c.Segs = append(lb.c.Segs, Seg{F: len(lb.c.Fields) - 1})
 }
 
+// a map key "<prefix><tokens>" (the prefix is unique in the file)
+func (lb *loadBuilder) key(kind, prefix string, toks []Tok) {
+	toks = append([]Tok{{K: "text", S: prefix}}, toks...)
+	lb.field(kind+":"+prefix, toks, "")
+	lb.c.Fields[len(lb.c.Fields)-1].Key = true
+}
+
 func genNames(r *rand.Rand, n int) []string {
 	seen := map[string]bool{}
 	var names []string
@@ -442,14 +455,25 @@ func genLoad(r *rand.Rand, id int) *Case {
 			scalar(fmt.Sprintf("genv:%d", i), false, true)
 		}
 	}
-	if nc := r.Intn(3); nc > 0 {
+	nc, eck := r.Intn(3), r.Intn(5) == 0
+	if nc > 0 || eck {
 		lb.lit("env_cmds:\n")
 		for i := 0; i < nc; i++ {
 			lb.lit(fmt.Sprintf("  EC%d: ", i))
 			scalar(fmt.Sprintf("ecmd:EC%d", i), false, true)
 		}
+		if eck {
+			lb.lit("  '")
+			lb.key("eckey", "eck_", genToks(r, names, false))
+			lb.lit("': 'true'\n")
+		}
 	}
 	lb.lit("processes:\n")
+	if r.Intn(4) == 0 {
+		lb.lit("  '")
+		lb.key("pkey", "kp_", genToks(r, names, false))
+		lb.lit("':\n    command: 'true'\n")
+	}
 	np := 1 + r.Intn(2)
 	for p := 0; p < np; p++ {
 		pn := fmt.Sprintf("p%d", p)
@@ -533,6 +557,28 @@ func directedLoads(id *int) []*Case {
 	cs = append(cs, mk("directed-sentinel-split", false, env, []Tok{{"text", "V=##PC_ENV_"}, {"var", "TAIL"}}))
 	cs = append(cs, mk("directed-sentinel-disabled", true, env, []Tok{{"text", "V=" + sentinel}, {"var", "SENT"}}))
 	cs = append(cs, mk("directed-brace-dollar", false, env, "V=${$}."))
+	for _, dis := range []bool{false, true} {
+		*id++
+		c := &Case{Kind: "load", Gen: "directed-key-tokens", ID: *id, Disabled: dis, Env: env, DotMode: "off"}
+		lb := &loadBuilder{c}
+		if dis {
+			lb.lit("disable_env_expansion: true\n")
+		}
+		lb.lit("env_cmds:\n  '")
+		lb.key("eckey", "EC_", []Tok{{"brace", "HOME_X"}})
+		lb.lit("': 'true'\nprocesses:\n  '")
+		lb.key("pkey", "p-", []Tok{{"var", "HOME_X"}, {"text", "-"}, {"esc", ""}})
+		lb.lit("':\n    command: '")
+		lb.field("cmd:p-", []Tok{{"text", "echo "}, {"var", "HOME_X"}}, "")
+		lb.lit("'\n")
+		// the command belongs to the process whose name is the raw / the expanded key
+		if dis {
+			c.Fields[2].Where = "cmd:p-$HOME_X-$$"
+		} else {
+			c.Fields[2].Where = "cmd:p-/home/u-$"
+		}
+		cs = append(cs, c)
+	}
 	return cs
 }
 
@@ -595,6 +641,11 @@ func runLoad(c *Case) {
 		return
 	}
 	for i := range c.Fields {
+		if c.Fields[i].Key {
+			c.Fields[i].ObsKeys = extractKeys(prj, c.Fields[i].Where, c.Fields[i].Raw)
+			c.Fields[i].Obs = strings.Join(c.Fields[i].ObsKeys, " | ")
+			continue
+		}
 		v, ok := extract(prj, c.Fields[i].Where)
 		if !ok {
 			c.LoadErr = "field " + c.Fields[i].Where + " is missing in the loaded project"
@@ -604,8 +655,34 @@ func runLoad(c *Case) {
 	}
 }
 
+func extractKeys(prj *types.Project, where, raw string) []string {
+	parts := strings.SplitN(where, ":", 2)
+	var all []string
+	if parts[0] == "pkey" {
+		for k := range prj.Processes {
+			all = append(all, k)
+		}
+	} else {
+		for k := range prj.EnvCommands {
+			all = append(all, k)
+		}
+	}
+	var first, rest []string
+	for _, k := range all {
+		if strings.HasPrefix(k, parts[1]) {
+			if k == raw {
+				first = append(first, k)
+			} else {
+				rest = append(rest, k)
+			}
+		}
+	}
+	sort.Strings(rest)
+	return append(first, rest...)
+}
+
 func extract(prj *types.Project, where string) (string, bool) {
-	parts := strings.Split(where, ":")
+	parts := strings.SplitN(where, ":", 3)
 	idx := func(s string) int {
 		var i int
 		fmt.Sscan(s, &i)
@@ -1135,6 +1212,9 @@ func main() {
 				stats["load_fields"]++
 				if f.Toks == nil {
 					stats["load_fields_edge"]++
+				}
+				if f.Key {
+					stats["load_fields_map_key"]++
 				}
 				stats["load_where_"+strings.SplitN(f.Where, ":", 2)[0]]++
 				for _, t := range f.Toks {
